@@ -293,7 +293,11 @@ pub struct LogDensity {
     pub log: SharedLog,
     pub faults: Arc<BTreeMap<usize, FaultKind>>,
     pub extra_dims: Vec<(String, u64)>,
+    /// watchdog: after this many evaluations every call fails with an unrecoverable "BUDGET" error
+    pub budget: usize,
 }
+
+pub const BUDGET_MSG: &str = "NVH-EVALUATION-BUDGET-EXHAUSTED";
 
 impl LogDensity {
     pub fn new(spec: DensSpec) -> Self {
@@ -302,7 +306,12 @@ impl LogDensity {
             log: Arc::new(Mutex::new(EvalLog { keep: true, ..Default::default() })),
             faults: Arc::new(BTreeMap::new()),
             extra_dims: vec![],
+            budget: usize::MAX,
         }
+    }
+    pub fn with_budget(mut self, budget: usize) -> Self {
+        self.budget = budget;
+        self
     }
     pub fn with_faults(mut self, faults: BTreeMap<usize, FaultKind>) -> Self {
         self.faults = Arc::new(faults);
@@ -347,6 +356,9 @@ impl CpuLogpFunc for LogDensity {
             l.count += 1;
             k
         };
+        if k >= self.budget {
+            return Err(DensErr { recoverable: false, msg: BUDGET_MSG.into() });
+        }
         let fault = self.faults.get(&k).copied();
         let mut res = self.spec.eval(x, g);
         if let Some(f) = fault {
